@@ -484,15 +484,36 @@ def orders_side_effects(u):
                                                       'RandSeed', 'RandID') or n.startswith('PV_')
 
 
+def new_result():
+    return {'status': 'ok', 'exc': [], 'bytes': None, 'order': [], 'names3': [], 'desc': None,
+            'desc_exc': None, 'base': None, 'nunits': 0}
+
+
 def run_case(prog):
-    res = {'status': 'ok', 'exc': [], 'bytes': None, 'order': [], 'names3': [], 'desc': None,
-           'desc_exc': None, 'base': None, 'nunits': 0}
+    res = new_result()
     try:
         sd = build_one(prog)
     except Exception as e:
         res['status'] = 'build_exc'
         res['exc'] = exc_chain(e)
         sd = None
+    describe_sd(res, sd, prog)
+    if prog.get('base'):
+        # the same graph under the neutral name 'n' and without variants: the structure the
+        # model's writer is applied to when the real name / the variants make the writer raise
+        try:
+            sdb = build_one(prog, name='n', variants='drop')
+            res['base'] = take_bytes(sdb).hex()
+            res['names3'] = [[cn.name, cn.index, len(utl.as_list(cn.default_value))]
+                             for cn in sdb._all_control_names if cn.rate != 'noncontrol']
+        except Exception as e:
+            res['base_exc'] = exc_chain(e)
+    return res
+
+
+def describe_sd(res, sd, prog=None, probe_cache=True):
+    """Everything the check looks at for one built SynthDef (bytes, creation order, declared parameters,
+    live units, the library reader's description / rebuilt units / definition name, leaks)."""
     if sd is not None:
         try:
             b = take_bytes(sd)
@@ -516,7 +537,8 @@ def run_case(prog):
         res['truth'] = truth_units(sd)
         res['truthk'] = truth_consts(sd)
         if res['bytes'] is not None:
-            res['cache'] = cache_probe(prog, sd, b)
+            if probe_cache and prog is not None:
+                res['cache'] = cache_probe(prog, sd, b)
             try:
                 res['desc'] = canon_desc(SynthDesc.new_from(sd))
             except Exception as e:
@@ -548,16 +570,6 @@ def run_case(prog):
         res['leak'] = 'main._def_build_lock is still held'
     else:
         _main.main._def_build_lock.release()
-    if prog.get('base'):
-        # the same graph under the neutral name 'n' and without variants: the structure the
-        # model's writer is applied to when the real name / the variants make the writer raise
-        try:
-            sdb = build_one(prog, name='n', variants='drop')
-            res['base'] = take_bytes(sdb).hex()
-            res['names3'] = [[cn.name, cn.index, len(utl.as_list(cn.default_value))]
-                             for cn in sdb._all_control_names if cn.rate != 'noncontrol']
-        except Exception as e:
-            res['base_exc'] = exc_chain(e)
     return res
 
 
